@@ -250,7 +250,8 @@ fn with_subs(rng: &mut Rng, mut agg: Value, depth: usize, risky: bool) -> Value 
   agg
 }
 
-/// `risky`: parameters known to trigger the per-segment threshold defects may be generated
+/// `risky`: the one request class of the still open finding (date_histogram with calendar
+/// interval + offset + bounds) may be generated; everything else is generated always
 pub fn gen_agg(rng: &mut Rng, depth: usize, risky: bool) -> Value {
   // leaves are more likely deeper in the tree
   let leaf = depth >= 3 || rng.chance(if depth == 1 { 2 } else { 5 }, 10);
@@ -295,15 +296,15 @@ pub fn gen_agg(rng: &mut Rng, depth: usize, risky: bool) -> Value {
         json!({"type": "percentile_ranks", "field": f, "values": ts, "missing": num_missing(rng, f)})
       }
       _ => {
-        // top_hits sorted by numeric fields (ties: index order); `from` > 0 only when risky
+        // top_hits sorted by numeric fields (ties: index order)
         let n = 1 + rng.below(2);
         let sort: Vec<Value> = (0..n).map(|_| json!({"field": pick_num_field(rng), "order": *rng.pick(&["asc", "desc"])})).collect();
-        let from = if risky && rng.chance(1, 2) { 1 + rng.below(2) } else { 0 };
+        let from = if rng.chance(1, 2) { 1 + rng.below(3) } else { 0 };
         json!({"type": "top_hits", "size": rng.below(4), "from": from, "sort": sort})
       }
     };
   }
-  match rng.below(if risky { 10 } else { 9 }) {
+  match rng.below(10) {
     7 => {
       // date_histogram over the date field
       let mut a = json!({"type": "date_histogram", "field": "t1"});
@@ -340,7 +341,7 @@ pub fn gen_agg(rng: &mut Rng, depth: usize, risky: bool) -> Value {
       if rng.chance(1, 3) {
         a["min_doc_count"] = json!(rng.below(2));
       }
-      if risky && rng.chance(1, 3) && !(fill_risk && calendar && bounds <= 1) {
+      if rng.chance(1, 3) && !(fill_risk && calendar && bounds <= 1) {
         a["min_doc_count"] = json!(2);
       }
       with_subs(rng, a, depth, risky)
@@ -381,7 +382,7 @@ pub fn gen_agg(rng: &mut Rng, depth: usize, risky: bool) -> Value {
       if rng.chance(1, 4) {
         a["min_doc_count"] = json!(rng.below(2)); // 0 or 1: harmless
       }
-      if risky && rng.chance(1, 3) {
+      if rng.chance(1, 2) {
         if rng.chance(1, 2) {
           a["min_doc_count"] = json!(2 + rng.below(2));
         } else {
@@ -443,7 +444,7 @@ pub fn gen_agg(rng: &mut Rng, depth: usize, risky: bool) -> Value {
       if rng.chance(1, 4) {
         a["min_doc_count"] = json!(rng.below(2));
       }
-      if risky && rng.chance(1, 4) {
+      if rng.chance(1, 3) {
         a["min_doc_count"] = json!(2 + rng.below(2));
       }
       with_subs(rng, a, depth, risky)
@@ -459,8 +460,7 @@ pub fn gen_agg(rng: &mut Rng, depth: usize, risky: bool) -> Value {
         if rng.chance(1, 2) {
           sources.push(json!({"type": "terms", "name": format!("c{i}"), "field": pick_kw_field(rng)}));
         } else {
-          // histogram sources over i64 columns yield no buckets (known finding): only when risky
-          let f = if risky && rng.chance(1, 3) { *rng.pick(&["i1", "i2"]) } else { *rng.pick(&F64_FIELDS) };
+          let f = pick_num_field(rng);
           sources.push(json!({"type": "histogram", "name": format!("c{i}"), "field": f, "interval": *rng.pick(&[0.5, 1.0, 2.5, 5.0])}));
         }
       }
@@ -1588,8 +1588,7 @@ impl Prop for C12 {
     } else {
       json!({"type": "term", "field": pick_kw_field(rng), "value": *rng.pick(&KW_VALUES[..3])})
     };
-    // two thirds of the cases stay away from the parameters of the known findings so that the
-    // bulk of the run checks everything else
+    // two thirds of the cases stay away from the request class of the open finding
     let risky = i % 3 == 2;
     let mut aggs = Map::new();
     for a in 0..(1 + rng.below(2)) {
